@@ -10,6 +10,7 @@ import Deb822Verif.Spec.DocGrammar
 import Deb822Verif.Spec.DocSDec
 import Deb822Verif.Spec.LossyCanon
 import Deb822Verif.Props.C01More
+import Deb822Verif.Props.C01Msgs
 import Deb822Verif.Lemmas.DocLines
 namespace Deb822Verif.Driver.Deb
 open Deb822Verif Proto Deb
@@ -391,14 +392,17 @@ def handle (op : String) (args : List String) : Option String :=
       | .error (.parse _) => "err"
     match Props.C01.readBytesRelaxed b with
     | none => pure s!"io {strict}"
-    | some (tr, errs) => pure s!"ok {encStr tr.text} {errs.length} {strict}"
+    | some (tr, errs) =>
+      pure s!"ok {encStr tr.text} {errs.length} {strict} {encStr (Props.C01Msgs.msgText errs).toList} payload={Props.C01Msgs.payloadFlagBytes b}"
   | "deb.read", [t] => do
     let s ← decStr t
     let r := parse s
     let strict := match readStrict s with
       | .ok tr => s!"ok:{encStr tr.text}"
       | .error _ => "err"
-    pure s!"{encStr r.tree.text} {r.errors.length} {strict} {dump r.tree}"
+    -- the messages (joined by a line feed) and whether the strict reader's payload is that list
+    -- (`Props.C01Msgs.msgsObs` / `payloadFlag`: C01_msgs_payload, C01_msgs_observable)
+    pure s!"{encStr r.tree.text} {r.errors.length} {strict} {dump r.tree} {encStr (Props.C01Msgs.msgsObs s).toList} payload={Props.C01Msgs.payloadFlag s}"
   | _, _ => none
 
 end Deb822Verif.Driver.Deb
